@@ -315,6 +315,11 @@ ITERS = {
 }
 
 
+def norm_ty(ty):
+    from ..engine import norm as _n
+    return _n(ty)
+
+
 def check_iter(F, rep, ity):
     rec, nextf, aux = ITERS[ity]
     q = "<%s as std::iter::Iterator>::next" % ity
@@ -364,6 +369,36 @@ def check_iter(F, rep, ity):
         rep.require(not msgs, "iterator", q, w, "item = parse(data @ offset), advance by %s%s" % (nextf, ", aux list at +%s with %s entries" % (aux[2], aux[1]) if aux else ""),
                     "%s: %s" % (q, "; ".join(msgs)))
     rep.require(n_some >= 1, "iterator", q + ":yields", w, "has yielding paths", "%s never yields" % q)
+    # completeness: the iteration ends only because the declared count is used up, there are no bytes, or the record at the cursor
+    # cannot be decoded - never on a further condition on a record that was decoded (later records would be lost to every query)
+    ci = [i for i, fd in enumerate(adt["variants"][0]["fields"]) if fd["name"] == "count"]
+    di = [i for i, fd in enumerate(adt["variants"][0]["fields"]) if fd["name"] == "data"]
+    self_ = T.deref(T.param(1))
+    n_none = 0
+    stray = 0
+    for t, st, calls in an.paths() or []:
+        if not (t.op == "agg" and t.args[3] == "None"):
+            continue
+        n_none += 1
+        why = None
+        if any(f[0] == "var" and f[2] == "Err" and isinstance(f[1], Term) and f[1].op == "call" and f[1].args[0].endswith("::parse_at") for f in st.facts):
+            why = "record not decodable"
+        for c in calls:
+            if why is None and c.callee_qual.endswith("::parse_at") and an.variant_known(an.simp(c.result, st.facts), "Err", st.facts):
+                why = "record not decodable"
+        if why is None and ci:
+            cnt = T.proj(self_, ("f", ci[0], "count"))
+            cty = norm_ty(adt["variants"][0]["fields"][ci[0]]["ty"])
+            if an.truth(st.facts, T.bin("Eq", cnt, T.const(cty, 0), cty)) is True:
+                why = "count used up"
+        if why is None and di:
+            dat = T.proj(self_, ("f", di[0], "data"))
+            if an.truth(st.facts, T.bin("Eq", T.length(dat), T.const("usize", 0), "usize")) is True:
+                why = "no bytes"
+        if why is None:
+            stray += 1
+    rep.require(stray == 0 and n_none >= 1, "iterator", q + ":ends", w, "%d ways to end: count used up, no bytes, record at the cursor not decodable" % n_none,
+                "%s ends the iteration on %d path(s) for another reason than a used-up count, empty data or an undecodable record: the records after that point are lost" % (q, stray))
 
 
 WIRING = {"gnu_symver::VerNeedIterator::new": "SHT_GNU_VERNEED", "gnu_symver::VerDefIterator::new": "SHT_GNU_VERDEF", "parse::ParsingTable::new": "SHT_GNU_VERSYM"}
@@ -431,6 +466,30 @@ def check_wiring(F, rep, q):
     # the value that is returned is judged in any case; the call-site view below adds the diagnosis at the construction sites when the
     # constructions are call sites of this body (they need not be: closures handed to map / transpose, helpers)
     judged = wiring_by_value(F, rep, q, an, by_const, w)
+    # completeness of "no version table": the construction of the table is by-passed only because there are no section headers or no
+    # SHT_GNU_VERSYM section was found (or a read failed) - not on a further condition on that section
+    from ..hashrules import early_exits
+    ctor = [c for c in an.calls() if c.callee_qual == "gnu_symver::SymbolVersionTable::new" and c.block in an.entry]
+    KV = cval(F, "SHT_GNU_VERSYM")
+
+    def no_versym(d, val):
+        txt = repr(d)
+        if d[0] in ("Eq", "Ne") and len(d) == 3:
+            inner = [x for x in d[1:] if isinstance(x, tuple) and x and x[0] == "discr"]
+            if len(inner) == 1 and any(isinstance(x, tuple) and x and x[0] == "c" for x in d[1:]):
+                return no_versym(inner[0], val)          # is_some() / is_none() of that Option
+        if d[0] == "call" and str(d[1]).endswith("::is_empty") and "shdrs" in txt and "sh_" not in txt.replace("shdrs", ""):
+            return True
+        if d[0] == "discr":
+            if any(("('L', %d)" % l) in txt for l in by_const.get(KV, ())) or str(KV) in txt:
+                return True          # the Option that receives the VERSYM header (loop form), or the result of a search for that type
+            return "shdrs" in txt and "sh_" not in txt.replace("shdrs", "")
+        return d[0] in ("Eq", "Ne", "Lt") and "shdrs" in txt and ("len" in txt or "is_empty" in txt) and "sh_" not in txt.replace("shdrs", "")
+    if len(ctor) == 1:
+        early_exits(an, rep, "wiring", q, w, no_versym, "no section headers, no SHT_GNU_VERSYM section", target=ctor[0].block,
+                    subject="the construction of the version table", lost="symbol versions are reported absent for an object that has them")
+    else:
+        rep.bad("wiring", q + ":early", w, "UNRECOGNISED: %d calls of SymbolVersionTable::new (expected the one that builds the answer)" % len(ctor))
     if n != 3 and judged:
         return
     rep.require(n == 3, "wiring", q + ":constructors", w, "index table, need iterator and def iterator are constructed", "%d of the 3 constructors found" % n)
@@ -533,6 +592,8 @@ def run(ctx, rep):
     check_query(F, rep, "gnu_symver::SymbolVersionTable::get_definition", "def")
     for ity in ITERS:
         check_iter(F, rep, ity)
+    from ._common import iterators_only_next
+    iterators_only_next(F, rep, "iterator", set(ITERS) | {"gnu_symver::SymbolNamesIterator"}, 5)
     check_wiring(F, rep, "elf_bytes::ElfBytes::symbol_version_table")
     if "std" in F["config"]["features"]:
         check_wiring(F, rep, "elf_stream::ElfStream::symbol_version_table")
